@@ -251,6 +251,12 @@ def reader_by_interpretation(facts, fs, layout):
                 return ('iter', IterObj([('ref', Cell(('piece', i))) for i in range(n or 0)]))
             if seg in ('trim', 'trim_start', 'trim_end', 'as_ref') and a0 is not None:
                 return args[0]
+            if seg in ('split_once', 'rsplit_once') and a0 is not None and a0[0] in ('str', 'piece') and seg == 'split_once':
+                # text.split_once(sep): (the piece before the first separator, the rest) — the rest is split again or is the last piece
+                k = 0 if a0[0] == 'str' else a0[1]
+                sep = args[1]
+                interp.trace.append(('split-once', k, sep[1] if sep[0] == 'int' else None))
+                return mk_option(('tuple', [Cell(('ref', Cell(('piece', k)))), Cell(('ref', Cell(('piece', k + 1))))]))
             if seg == 'parse' and a0 is not None and a0[0] == 'piece':
                 ty = [g for g in (t.get('gargs') or []) if g in INT_WIDTH]
                 if not ty:
